@@ -95,6 +95,11 @@ def w_sweep(elements):
         hostile = ["a:b:c", "::", ":", "", " ", "xml:lang", "{u}x", "}", "x\x00", "\u00e9", "a" * 1000, "%s", "{0}", "__class__", "a b", "\u202e"]
         for d in attrs[:3]:
             hostile += [d + ":", ":" + d, "x:" + d, "x:y:" + d, d + " ", d.upper()]
+        for a in attrs[:4]:             # values of any type on DECLARED attributes (a JSON model may carry arrays and objects)
+            for v in ([], {}, ["document"], {"k": "v"}, b"x", 1.5, None, True, (), frozenset(), 10 ** 30):
+                n = Node(el)
+                n.add_attribute(a, v)
+                root.add_child(n)
         for hn in hostile:
             n = Node(el)
             n.add_attribute(hn, "v")
